@@ -3,6 +3,7 @@ mod proj;
 mod util;
 mod tables;
 mod c04;
+mod pipeline;
 mod rules;
 mod scan;
 mod c05;
@@ -19,6 +20,8 @@ fn main() {
         ("replay", "C03") => scan::replay(),
         ("replay", "C05") => c05::replay(),
         ("replay", "C18") => c18::replay(),
+        ("replay", "pipeline") => pipeline::replay_schedules(),
+        ("record", "pipeline") => pipeline::record(&args[3], args.get(4).and_then(|s| s.parse().ok()).unwrap_or(100), util::env_u64("VERIF_SEED", 1)),
         _ => { eprintln!("usage: asca-conform tables <dir> | replay <id> | record <id> <out>"); std::process::exit(2); }
     }
 }
